@@ -10,6 +10,13 @@ KNOWN_NORESULT = ("failed to determine lattice index",)
 def run(chk, replay=None):
     thorough = chk.tier == "thorough"
     w = core.workdir("c18")
+    if replay and replay["event"].get("op") in ("run", "clscli"):     # a failing case of the stage "cls-proto" / "cls-cli"
+        cls_stages(chk, thorough, replay)
+        return
+    if os.environ.get("VERIF_C18_ONLY") == "cls":                      # development: only the added stages
+        cls_stages(chk, thorough, None)
+        chk.rule = "stage cls-proto / cls-cli only (VERIF_C18_ONLY=cls)"
+        return
     # (M) the definitions checked on themselves: reduced-form count (Heegner discriminants, the class numbers the
     # repository's test asserts, set vs counting operator), form arithmetic is a group law with the 2-rank of genus
     # theory, and the sign rule read off a sieve value agrees with form arithmetic
@@ -126,4 +133,149 @@ def run(chk, replay=None):
         "the sieve value u logged by the cfg(yamaquasi_verif) hook in sieve_block_poly is only a witness: a relation it does not "
         "explain is decided by form composition/reduction in TLA+",
         "prime forms of the factor base are assumed to generate the class group when coordinates are interpreted",
+    ]
+    if not replay and os.environ.get("VERIF_C18_NO_CLS") != "1":
+        cls_stages(chk, thorough, None)
+
+
+# ---------------------------------------------------------------------------------------------------------------------
+# growth item: the class-group sieve's concurrent protocol (ClsProto.tla) and the ymcls command line (ClsCli.tla)
+# ---------------------------------------------------------------------------------------------------------------------
+CLS_HOLD = ["MC_ClsProto_par.cfg", "MC_ClsProto_par2.cfg", "MC_ClsProto_early.cfg", "MC_ClsProto_abort.cfg", "MC_ClsProto_seq.cfg",
+            "MC_ClsProto_short.cfg", "MC_ClsProto_live.cfg", "MC_ClsProto_abort_live.cfg"]
+CLS_HOLD_THOROUGH = ["MC_ClsProto_w3.cfg", "MC_ClsProto_par_big.cfg"]
+# reachability / non-vacuity / documented hazards: the invariant named is expected to be VIOLATED
+CLS_EXPECT = {
+    "MC_ClsProto_nolock.cfg": ("NoLostInsert", "model mutation: inserts without the write lock lose relations"),
+    "MC_ClsProto_nolock_excl.cfg": ("WriterExclusive", "model mutation: without the lock two threads are inside CRelationSet::add"),
+    "MC_ClsProto_checkfirst.cfg": ("BreakAfterInsert", "model mutation: completion tested before the insert drops the relation in hand"),
+    "MC_ClsProto_orderdep.cfg": ("CompleteIfSingleComplete",
+                                 "model-level hazard: the cycle count of the store depends on the insertion order (an edge between two "
+                                 "vertices that join the tree later through other edges is never counted), so with a supply that is only just "
+                                 "sufficient in sequential order a pool run can exhaust it and panic 'not enough polynomials'; the parameter "
+                                 "tables give a supply far above the need, no real run gets there"),
+    "MC_ClsProto_reach_cycle.cfg": ("NeverCycleOverPath", "non-vacuity: some run emits a stored relation over a closed cycle and finishes"),
+    "MC_ClsProto_reach_panic.cfg": ("NeverPanics", "non-vacuity: a short supply ends in the panic of the final length test"),
+}
+CLSCLI_EXPECT = {
+    "MC_ClsCli_reach_answer.cfg": ("NeverAnswers", "non-vacuity: some invocation prints a two-factor group"),
+    "MC_ClsCli_reach_libfail.cfg": ("NeverLibFails", "non-vacuity: some invocation ends in a refusal of the library"),
+    "MC_ClsCli_classnumber_early.cfg": ("ClassnumberOnlyOnSuccess", "documented observation: the file classnumber is written before the "
+                                        "group computation can still fail"),
+}
+CLS_CODES = {1: "c_stage", 3: "c_task", 4: "c_task_skip", 5: "c_pre_poll", 6: "poll", 7: "c_unit_start", 8: "c_unit_end", 9: "c_unit_interrupt",
+             10: "c_poly", 11: "c_r_done", 12: "c_block_break", 13: "c_loop_exit", 14: "c_st_done", 15: "cls_rel", 16: "c_w_req", 17: "c_w_acq",
+             18: "c_store_add", 19: "c_emit", 20: "c_add", 21: "c_smooth_break", 22: "c_join", 23: "c_ret_none", 24: "c_final_len", 25: "c_result",
+             26: "c_linalg", 27: "call", 28: "returned"}
+
+
+def _expect(chk, module, table, workers=1):
+    for cfg, (inv, what) in table.items():
+        r = core.model_check(module, cfg, workers=workers, timeout=900, expect_error=True)
+        chk.add_mc(r, invariants_expected_to_hold=False)
+        if inv not in r["violated"]:
+            raise core.ToolError("model %s: expected TLC to reach a violation of %s" % (cfg, inv))
+        chk.notes.append({"model": cfg, "violates_as_expected": inv, "meaning": what})
+
+
+def cls_stages(chk, thorough, replay):
+    from .c05 import run_sharded
+    w = core.workdir("c18", "cls")
+    rop = replay["event"].get("op") if replay else None
+    # (M) the protocol with the real store model inside, and the command-line layer
+    if not replay:
+        for cfg in CLS_HOLD + (CLS_HOLD_THOROUGH if thorough else []):
+            chk.add_mc(core.model_check("classgroup/ClsProtoMC.tla", cfg, workers=2, timeout=1500))
+        _expect(chk, "classgroup/ClsProtoMC.tla", CLS_EXPECT)
+        chk.add_mc(core.model_check("classgroup/ClsCli.tla", "MC_ClsCli.cfg", workers=1, timeout=300))
+        _expect(chk, "classgroup/ClsCli.tla", CLSCLI_EXPECT)
+    # (V) runs of classgroup() with pools of 1, 2, 3, 4, 8 threads under schedule perturbation
+    if rop in (None, "run"):
+        extra = ["--only", replay["event"]["case"]] if replay else []
+        trace = run_sharded("cls", chk, w, extra)
+        evs = core.read_ndjson(trace)
+        if replay:
+            want = replay["event"]
+            evs = [e for e in evs if e["op"] == "input" or (e.get("base") and e.get("bkey") == want.get("bkey")) or e.get("run") == want.get("run")]
+            if not any(e.get("run") == want.get("run") for e in evs):
+                raise core.ToolError("replay: run %r not produced any more by the driver" % (want.get("run"),))
+            core.write_ndjson(trace, evs)
+        res = core.validate_trace("classgroup/ClsProtoTrace.tla", "ClsProtoTrace.cfg", trace, group_key="case", timeout=1700,
+                                  weight=lambda e: 2000 + len(e.get("evs", [])), tag="cls-proto")
+        chk.add_tv(res)
+        runs = [e for e in evs if e["op"] == "run"]
+        codes, cells, perts, outcomes = {}, {}, {}, {}
+        for e in runs:
+            for x in e.get("evs", []):
+                codes[x[0]] = codes.get(x[0], 0) + 1
+            k = "t%d%s" % (e["threads"], "/abort" if e.get("abort_at", -1) >= 0 else "")
+            cells[k] = cells.get(k, 0) + 1
+            perts[e["pert"]] = perts.get(e["pert"], 0) + 1
+            o = e.get("outcome") or e["ret"]
+            outcomes[o] = outcomes.get(o, 0) + 1
+
+        def key(e):      # non-trivial: a pool run in which at least two threads inserted relations
+            if e["op"] != "run" or e["threads"] < 2:
+                return None
+            return ("cls-proto", e["run"]) if len({x[1] for x in e.get("evs", []) if x[0] == 17}) >= 2 else None
+        chk.count(runs, key)
+        chk.cov["cls_proto_inputs"] = sum(1 for e in evs if e["op"] == "input")
+        chk.cov["cls_proto_runs_by_threads"] = dict(sorted(cells.items()))
+        chk.cov["cls_proto_runs_by_perturbation"] = perts
+        chk.cov["cls_proto_outcomes"] = outcomes
+        chk.cov["cls_proto_log_entries"] = {CLS_CODES.get(k, str(k)): v for k, v in sorted(codes.items())}
+        chk.cov["cls_proto_store_replayed_runs"] = sum(1 for e in runs if e.get("store_replay"))
+        chk.cov["cls_proto_gate_runs_released"] = sum(1 for e in runs if e.get("gate_released", 0) > 0)
+        chk.cov["cls_proto_h_checked_against_form_count"] = sum(1 for e in evs if e["op"] == "input" and "n" in e)
+        npool = [n for n in res["notes"] if n[1] == "pool_run_without_result"]
+        if npool:
+            chk.notes.append({"observation": "pool runs that ended in a refusal of the library although the run without pool returned a group "
+                              "(not judged: C18 speaks about returned results)", "runs": len(npool)})
+        if not replay:
+            missing = sorted(set(CLS_CODES.values()) - {CLS_CODES.get(k) for k in codes})
+            if missing:
+                chk.notes.append({"vacuity": "cls-proto log entries never seen", "entries": missing})
+        for e in [r for r in runs if r["threads"] >= 2][:2]:
+            chk.sample({k: e[k] for k in ("op", "run", "dd", "threads", "pert", "ret", "hd", "invd", "raw_events") if k in e})
+    # (V) the real ymcls program
+    if rop in (None, "clscli"):
+        shapes = os.path.join(w, "clscli_shapes.ndjson")
+        nsh, r = core.gen_shapes("classgroup/ClsCliShapes.tla", "ClsCliShapes.cfg", shapes)
+        chk.add_mc(r)
+        ctrace = os.path.join(w, "clscli_trace.ndjson")
+        args = ["cls", "--mode", "cli", "--bin", core.build_cli("release")["ymcls"], "--shapes", shapes, "--seed", chk.seed,
+                "--jobs", max(2, core.NCPU // 2), "--scratch", os.path.join(w, "clscli_scratch")]
+        if replay:
+            args += ["--only", replay["event"]["case"]]
+        core.run_driver(args, ctrace, timeout=3000)
+        cres = core.validate_trace("classgroup/ClsCliTrace.tla", "ClsCliTrace.cfg", ctrace, timeout=900,
+                                   weight=lambda e: 4 + (40 if "n" in e else 0), tag="cls-cli")
+        chk.add_tv(cres)
+        cevs = core.read_ndjson(ctrace)
+        why = {}
+        for e in cevs:
+            why[e["why"]] = why.get(e["why"], 0) + 1
+        chk.count(cevs, lambda e: ("cls-cli", e["case"]) if e["why"] == "answer" and e.get("invd") else None)
+        chk.cov["cls_cli_shapes"] = nsh
+        chk.cov["cls_cli_outcomes"] = why
+        chk.cov["cls_cli_answers_checked_against_library"] = sum(1 for e in cevs if e["why"] == "answer" and "libh" in e)
+        chk.cov["cls_cli_answers_checked_against_form_count"] = sum(1 for e in cevs if e["why"] == "answer" and "n" in e)
+        left = [n for n in cres["notes"] if n[1] == "failed_run_left_classnumber_file"]
+        chk.cov["cls_cli_failed_runs_with_classnumber_file"] = len(left)
+        if not replay:
+            missing = {"usage", "answer", "number", "size", "residue", "verbosity", "outdir"} - set(why)
+            if missing:
+                chk.notes.append({"vacuity": "ymcls outcomes never seen", "outcomes": sorted(missing)})
+    chk.rule += ("; stage cls-proto: classgroup() on seeded fundamental D of 16..64 bits (both residue classes) without pool and with pools "
+                 "of 1, 2, 3, 4, 8 threads under schedule perturbation (random yields/sleeps, writer gate, task gate, late-writer gate), "
+                 "double large primes for a share, abort predicate flipping at a poll index; non-trivial = pool run in which >= 2 threads "
+                 "inserted relations; stage cls-cli: one invocation of the real ymcls per class of ClsCliShapes.tla, non-trivial = an "
+                 "answer with a non-trivial group")
+    chk.assumptions += [
+        "cls-proto: hook events of src/classgroup.rs / src/relationcls.rs are logged at the accesses they name; c_w_acq, c_store_add, c_emit, "
+        "c_add are logged while the write lock is held, c_r_done while the hook's own read lock is held (the log mutex gives their order)",
+        "cls-proto: schedules are sampled (perturbation + gates), not enumerated; the exhaustive interleaving claim is the model's "
+        "(ClsProto.tla, 2-3 workers, the store of CRelStore.tla inside); relaxed loads in the model may return any value written so far",
+        "cls-cli: exit status / stdout / first panic message / files of OUTPUTDIR of the ymcls process as read by the driver; argument "
+        "classes are known by construction; D = 0 is not driven (ymcls -0 does not terminate: observation outside the property)",
     ]
